@@ -1013,7 +1013,7 @@ class ParticleS2(Unit):
     timeout = 10
     solver_opts = {"uf_abstraction": True}
     summaries = {"PyMatterSim.utils.pbc.remove_pbc": pbc_summary, PAIR + ".s2_integral": s2_summary}
-    loop_hints = {(PAIR + ".S2.particle_s2", "for", "enumerate(distance)"): masked_accumulation_summary}
+    loop_hints = {(PAIR + ".S2.particle_s2", "for", "<mask-selection>"): masked_accumulation_summary}     # any loop of the function over a boolean-mask selection
 
     def cases(self):
         return [f"d={d}/{g}" for d in (2, 3) for g in ("s2-only", "savegr")]
